@@ -118,6 +118,13 @@ def run(pid, tier, seed, replay, t0):
         if bad:
             raise vlib.MachineryError('axiom audit failed: ' + '; '.join(bad[:5]) + '\n' + txt[-1500:])
         proofs = {'obligations': len(thms), 'discharged': len(thms), 'theorems': thms, 'axioms_seen': sorted(axs)}
+        if tier == 'thorough':
+            # independent re-check of the compiled proofs by the toolchain's leanchecker
+            import subprocess
+            r = subprocess.run(['lake', 'env', 'leanchecker', P.props_module], cwd=vlib.LEAN, capture_output=True, text=True)
+            proofs['leanchecker'] = 'ok' if r.returncode == 0 else 'FAILED: ' + (r.stdout + r.stderr)[-500:]
+            if r.returncode != 0:
+                raise vlib.MachineryError('leanchecker rejected ' + P.props_module + ': ' + (r.stdout + r.stderr)[-800:])
 
     # ---- 3. replay mode: re-execute exactly the stored case
     if replay:
@@ -211,6 +218,7 @@ def verdict(P, ctx, broken, findings, cov, t0, proofs, replay_mode=False, fatal_
                          'Lean compiler+runtime and libm for the executable model and the oracle',
                          'g++ 12.2 / Eigen 3.4.0 as the platform executing the implementation'],
         'theorems': pr['theorems'],
+        'leanchecker': pr.get('leanchecker', 'not run (thorough tier only)'),
         'known_findings_seen': sorted(printed),
         'no_longer_checks': [b['name'] for b in broken],
     })
